@@ -176,6 +176,9 @@ def cond_case(draw):
         if draw(st.integers(0, 2)) == 0:
             firsttrue = next((i for i, c in enumerate(conds) if tv(c)), n - 1)
             conds[draw(st.integers(0, firsttrue))] = err(draw(st.sampled_from(CODES8)))
+        elif draw(st.integers(0, 3)) == 0:
+            # a blank in a value slot is a value like any other: selected, it is the (blank) outcome
+            vals[draw(st.integers(0, n - 1))] = None
         elif draw(st.booleans()):
             # an error value sitting in value slots: it is the outcome only when its own condition is the first true one
             for i in draw(st.lists(st.integers(0, n - 1), min_size=1, max_size=2)):
